@@ -6,6 +6,7 @@
 //@harness hvec_remove_tail | bounded | <= 3 items, symbolic user counts | C05
 //@harness hvec_inc_dec_sum | bounded | <= 3 items, symbolic user counts and locator | C05,C15
 //@harness locator_to_idx_total | complete | all NonZero<u32> | C05,C15
+//@harness scoped_handlers_start_stop_balance | bounded | one selector registration with every combination of element/comments/text handlers (fn-pointer handler types), one matched element, with/without content | C05
 //@append src/rewriter/handlers_dispatcher.rs
 #[cfg(kani)]
 mod verif_kani_hvec {
@@ -122,5 +123,53 @@ mod verif_kani_hvec {
         kani::assume(l != 0);
         let i = locator_to_idx(Locator::new(l).unwrap());
         assert!(i == (l - 1) as usize);
+    }
+
+    // handler types without boxed closures (plain fn pointers), so that CBMC can hold the harness
+    struct VH;
+    fn h_doctype(_: &mut crate::rewritable_units::Doctype<'_>) -> HandlerResult { Ok(()) }
+    fn h_comment(_: &mut crate::rewritable_units::Comment<'_>) -> HandlerResult { Ok(()) }
+    fn h_text(_: &mut crate::rewritable_units::TextChunk<'_>) -> HandlerResult { Ok(()) }
+    fn h_element(_: &mut crate::rewritable_units::Element<'_, '_, VH>) -> HandlerResult { Ok(()) }
+    fn h_end_tag(_: &mut crate::rewritable_units::EndTag<'_>) -> HandlerResult { Ok(()) }
+    fn h_end(_: &mut crate::rewritable_units::DocumentEnd<'_>) -> HandlerResult { Ok(()) }
+    fn h_bail(_: &crate::rewriter::RewritingError, _: &mut crate::rewritable_units::BailOut<'_>) {}
+    impl HandlerTypes for VH {
+        type DoctypeHandler<'h> = fn(&mut crate::rewritable_units::Doctype<'_>) -> HandlerResult;
+        type CommentHandler<'h> = fn(&mut crate::rewritable_units::Comment<'_>) -> HandlerResult;
+        type TextHandler<'h> = fn(&mut crate::rewritable_units::TextChunk<'_>) -> HandlerResult;
+        type ElementHandler<'h> = fn(&mut crate::rewritable_units::Element<'_, '_, VH>) -> HandlerResult;
+        type EndTagHandler<'h> = fn(&mut crate::rewritable_units::EndTag<'_>) -> HandlerResult;
+        type EndHandler<'h> = fn(&mut crate::rewritable_units::DocumentEnd<'_>) -> HandlerResult;
+        type BailOutHandler<'h> = fn(&crate::rewriter::RewritingError, &mut crate::rewritable_units::BailOut<'_>);
+        fn new_end_tag_handler<'h>(_handler: impl crate::rewriter::IntoHandler<crate::rewriter::EndTagHandlerSend<'h>>) -> Self::EndTagHandler<'h> { h_end_tag }
+        fn new_element_handler<'h>(_handler: impl crate::rewriter::IntoHandler<crate::rewriter::ElementHandlerSend<'h, Self>>) -> Self::ElementHandler<'h> { h_element }
+        fn combine_handlers(_handlers: Vec<Self::EndTagHandler<'_>>) -> Self::EndTagHandler<'_> { h_end_tag }
+    }
+    // a matched element activates exactly the comment and text handlers of its selector registration while it is open, and closing
+    // it releases exactly those again (scoped handlers see nothing after the element is closed)
+    #[kani::proof]
+    #[kani::unwind(4)]
+    fn scoped_handlers_start_stop_balance() {
+        use crate::rewriter::rewrite_controller::ElementDescriptor;
+        use crate::rewriter::settings::ElementContentHandlers;
+        use crate::selectors_vm::{ElementData, MatchInfo};
+        let mut d = ContentHandlersDispatcher::<VH>::default();
+        let (e, c, t): (bool, bool, bool) = (kani::any(), kani::any(), kani::any());
+        let h = ElementContentHandlers::<VH> { element: if e { Some(h_element as _) } else { None }, comments: if c { Some(h_comment as _) } else { None }, text: if t { Some(h_text as _) } else { None } };
+        let id = d.add_selector_associated_handlers(h);
+        assert!(d.comment_handlers.user_count == 0 && d.text_handlers.user_count == 0);
+        let with_content: bool = kani::any();
+        let mut desc = ElementDescriptor::new();
+        d.start_matching(&MatchInfo { match_id: id, with_content });
+        if with_content { desc.matched_ids_mut().insert(id); }
+        assert!(d.comment_handlers.user_count == (if with_content && c { 1 } else { 0 }));
+        assert!(d.text_handlers.user_count == (if with_content && t { 1 } else { 0 }));
+        d.stop_matching(desc);
+        // everything the element activated is released: no scoped text/comment handler stays active
+        assert!(d.comment_handlers.user_count == 0 && d.text_handlers.user_count == 0);
+        if t { assert!(d.text_handlers.items[0].user_count == 0); }
+        if c { assert!(d.comment_handlers.items[0].user_count == 0); }
+        let _ = (h_doctype as fn(&mut crate::rewritable_units::Doctype<'_>) -> HandlerResult, h_end as fn(&mut crate::rewritable_units::DocumentEnd<'_>) -> HandlerResult, h_bail as fn(&crate::rewriter::RewritingError, &mut crate::rewritable_units::BailOut<'_>));
     }
 }
